@@ -4,7 +4,7 @@
    (tree operations, private-key bookkeeping, decap selection, path-secret chains) into one
    statement about one commit; by induction it holds after every history of commits. *)
 From Coq Require Import NArith Arith List Bool Lia.
-From MlsV Require Import Res TreeMathGen BitsN TreeMathProofs Tree TreeProofs TreeWF Kem Priv PrivProofs Decap DecapProofs TreeWF5 PrivComplete KemSecrets KemSecretsProofs Agreement.
+From MlsV Require Import Res TreeMathGen BitsN TreeMathProofs Tree TreeProofs TreeWF Kem KemProofs Priv PrivProofs Decap DecapProofs TreeWF5 PrivComplete KemSecrets KemSecretsProofs Agreement.
 Import ListNotations.
 Local Open Scope N_scope.
 
@@ -491,4 +491,93 @@ Proof.
   intros I R. induction R as [|g g' R IH St|g g' R IH St]; [exact I| |].
   - eapply ginv_step; [exact IH|exact St].
   - eapply ginv_step_nopath; [exact IH|exact St].
+Qed.
+
+(* ---- a member added by the commit: the path secret in its Welcome leads to the same commit secret ---- *)
+Section JoinerAgreement.
+  Variable sec : Type.
+  Variable derive : sec -> sec.
+
+  (* the committer hands the joiner the path secret at position joiner_secret_position(L) = L - 1 of its
+     list (Model/Join.v, translated by rs2v welcome); that position is never filtered - the joiner's own
+     leaf is in the copath subtree - and following the chain from there ends in the commit secret *)
+  Theorem every_joiner_derives_the_commit_secret t1 sndr id me flt L r :
+    shape_ok t1 -> small t1 -> 2 * sndr < tlen t1 -> me <> sndr -> get t1 (2 * me) <> None ->
+    1 <= L -> me / 2 ^ L = sndr / 2 ^ L -> (forall k, k < L -> me / 2 ^ k <> sndr / 2 ^ k) ->
+    let t1' := set t1 (2 * sndr) (Some (Leaf id)) in
+    let k := N.to_nat (L - 1) in
+    filtered t1' sndr = Ok flt -> (k < length flt)%nat ->
+    exists s,
+      secret_at sec (fst (committer_chain sec derive flt r)) k = Some s /\
+      receiver_chain sec derive (skipn k flt) s =
+        (skipn k (fst (committer_chain sec derive flt r)), snd (committer_chain sec derive flt r)).
+  Proof.
+    intros Sh Sm Ls Nes Nb L1 Eq Ne. cbv zeta. intros F Lk.
+    set (t1' := set t1 (2 * sndr) (Some (Leaf id))) in *.
+    assert (Sh' : shape_ok t1') by (apply shape_set; [exact Sh|cbn [kind_ok]; rewrite N.even_mul; reflexivity]).
+    assert (Sm' : small t1') by (unfold small, t1'; rewrite set_length; exact Sm).
+    assert (Gl' : get t1' (2 * me) <> None) by (unfold t1'; rewrite get_set_other by lia; exact Nb).
+    assert (Sib : me / 2 ^ N.of_nat (N.to_nat (L - 1)) = sib (sndr / 2 ^ N.of_nat (N.to_nat (L - 1)))) by (rewrite N2Nat.id; apply siblings_below_the_ancestor; assumption).
+    pose proof (receiver_level_unfiltered t1' sndr me (N.to_nat (L - 1)) flt Sh' Sm' ltac:(unfold t1'; rewrite set_length; lia) Gl' F Sib Lk) as Unf.
+    destruct (proj1 (committer_chain_shape sec derive flt r (N.to_nat (L - 1)) Lk) Unf) as [s Hs].
+    exists s. split; [exact Hs|]. apply receiver_reaches_commit_secret; assumption.
+  Qed.
+End JoinerAgreement.
+
+(* ---- a removed member holds no key of any node the new path secrets are sealed to ---- *)
+Lemma ancestor_odd p l : ancestor p l -> N.even p = false.
+Proof. intros (k & j & -> & _). apply node_odd_S. Qed.
+
+Lemma not_par_mono t t' p : ParMono t t' -> (forall um, get t p <> Some (Par um)) -> forall um, get t' p <> Some (Par um).
+Proof. intros M H um G. destruct (M p um G) as (u & Gu & _). exact (H u Gu). Qed.
+
+Lemma apply_removes_blanks l : forall rs t t', small t -> apply_removes t rs = TOk t' -> In l rs ->
+  forall p, ancestor p l -> forall um, get t' p <> Some (Par um).
+Proof.
+  induction rs as [|r rest IH]; intros t t' Sm A I p An; [destruct I|].
+  cbn [apply_removes] in A.
+  destruct (blank_leaf t r) as [ta| |] eqn:B; cbn [tbind] in A; try discriminate.
+  destruct (blank_direct_path ta r) as [tb| |] eqn:D; cbn [tbind] in A; try discriminate.
+  assert (La : tlen ta = tlen t) by (eapply blank_leaf_length; exact B).
+  assert (Lb : tlen tb = tlen ta) by (eapply blank_direct_path_length; exact D).
+  assert (Smb : small tb) by (unfold small in *; lia).
+  destruct (N.eq_dec r l) as [->|Ne].
+  - assert (Ll : 2 * l < tlen ta).
+    { unfold blank_leaf in B. destruct (get t (2 * l)) as [[x|um0]|] eqn:G; try discriminate. pose proof (get_some_lt _ _ _ G). lia. }
+    pose proof (blank_direct_path_blanks ta l tb ltac:(unfold small in *; lia) Ll D p An) as Nn.
+    apply (not_par_mono tb t' p (ParMono_apply_removes _ _ _ A)). intros um G. congruence.
+  - destruct I as [E|I]; [congruence|]. eapply IH; eassumption.
+Qed.
+
+Theorem removed_member_holds_no_key_of_a_recipient_node t removes updates adds t1 added l sndr id rs :
+  shape_ok t -> tlen t + 2 * N.of_nat (length adds) < 2 ^ 25 ->
+  batch_edit t removes updates adds = TOk (t1, added) -> In l removes ->
+  let t1' := set t1 (2 * sndr) (Some (Leaf id)) in
+  wf3 t1' -> encap_recipients t1' sndr added = Ok rs ->
+  forall p xs x, In (p, xs) rs -> In x xs ->
+    (forall k, (1 <= k)%nat -> x <> lvl_node (N.of_nat k) l) /\ (get t1' (2 * l) = None \/ In l added -> x <> 2 * l).
+Proof.
+  intros Sh Sz B Il. cbv zeta. intros W E p xs x I1 I2.
+  destruct (seal_recipients_ok _ _ _ _ W E p xs x I1 I2) as (Nb & Nx & _).
+  destruct (shape_batch_edit _ _ _ _ _ _ Sh B) as [Sh1 _].
+  split.
+  - intros k Hk Ex. subst x.
+    pose proof (ancestor_lvl_node k l Hk) as An. pose proof (ancestor_odd _ _ An) as Od.
+    (* the node is not a parent in t1 (blanked by the removal, never re-created) and cannot be a leaf *)
+    assert (NP : forall um, get t1 (lvl_node (N.of_nat k) l) <> Some (Par um)).
+    { unfold batch_edit in B.
+      destruct (apply_removes t (rev removes)) as [ta| |] eqn:R1; cbn [tbind] in B; try discriminate.
+      destruct (apply_updates ta updates) as [tb| |] eqn:U; cbn [tbind] in B; try discriminate.
+      destruct (blank_paths tb (map fst updates)) as [tc| |] eqn:Bp; cbn [tbind] in B; try discriminate.
+      destruct (apply_adds tc adds 0 []) as [[td ad]| |] eqn:Ad; cbn [tbind] in B; try discriminate.
+      assert (t1 = trim td) by congruence. subst t1.
+      apply (not_par_mono td _ _ (ParMono_trim td)).
+      apply (not_par_mono tc _ _ (ParMono_apply_adds _ _ _ _ _ _ Ad)).
+      apply (not_par_mono tb _ _ (ParMono_blank_paths _ _ _ Bp)).
+      apply (not_par_mono ta _ _ (ParMono_apply_updates _ _ _ U)).
+      eapply apply_removes_blanks; [|exact R1| |exact An]; [unfold small; lia|apply in_rev; rewrite rev_involutive; exact Il]. }
+    apply Nb. rewrite get_set_other by (intro Q; rewrite Q, N.even_mul in Od; discriminate).
+    specialize (Sh1 (lvl_node (N.of_nat k) l)). destruct (get t1 (lvl_node (N.of_nat k) l)) as [[y|um]|]; [|exfalso; exact (NP um eq_refl)|reflexivity].
+    cbn [kind_ok] in Sh1. congruence.
+  - intros [G|Ia] Ex; subst x; [exact (Nb G)|exact (Nx l Ia eq_refl)].
 Qed.
